@@ -970,6 +970,116 @@ theorem stepCtx_nak (s : Sess) (e : Ev) (orc : List Orc) (h : Nak T0 p t k { s :
   · exact lgExpire_nak _ h
 
 
+/-! ## what one call of coap_session_disconnected_lkd reports -/
+
+theorem disconnected_nk (r : Nack) (hr : r ≠ .icmp) (j : Nat) :
+    nk j (c.disconnected r).out =
+      nk j c.out + nk j (c.discOuts r ++ (c.s.inflight.filter fun q : QMsg => q.con).map (nackOf r)) := by
+  unfold Ctx.disconnected
+  simp only
+  rw [if_neg hr, (same_sessionClose _).out j, (same_relTail _ _).out j]
+  simp only [Ctx.upd, nk_append]
+  omega
+
+theorem disconnected_queues (r : Nack) (hr : r ≠ .icmp) :
+    (c.disconnected r).s.delayq = [] ∧ (c.disconnected r).s.inflight = [] := by
+  unfold Ctx.disconnected
+  simp only
+  rw [if_neg hr, (same_sessionClose _).dq, (same_relTail _ _).dq, (same_sessionClose _).infl, (same_relTail _ _).infl]
+  exact ⟨rfl, rfl⟩
+
+/-- one call of coap_session_disconnected_lkd (not ICMP, outside block mode) on a state of the ledger: every Confirmable on either
+queue is named by at least one NACK; a serial is named TWICE exactly when it is the Confirmable at the head of the send queue -/
+theorem disc_counts (r : Nack) (hr : r ≠ .icmp) (h : Nak T0 p t k c) (j : Nat) :
+    ((∃ q ∈ c.s.delayq ++ c.s.inflight, q.sn = j ∧ q.con = true) →
+        1 ≤ nk j (c.discOuts r ++ (c.s.inflight.filter fun q : QMsg => q.con).map (nackOf r))) ∧
+    (nk j (c.discOuts r ++ (c.s.inflight.filter fun q : QMsg => q.con).map (nackOf r)) = 2 ↔
+        ∃ q0 tl, c.s.inflight = q0 :: tl ∧ q0.sn = j ∧ q0.con = true) := by
+  have hnd := h.nd j
+  simp only [hc] at hnd
+  have hB : nk j ((c.s.delayq.filter fun q : QMsg => q.con).map (nackOf r)) ≤ (sns c.s.delayq).count j := by
+    rw [nk_map_nackOf j r hr]; exact countP_filter_sn_le _ _ j
+  have hBpos : ∀ q ∈ c.s.delayq, q.sn = j → q.con = true → 1 ≤ nk j ((c.s.delayq.filter fun q : QMsg => q.con).map (nackOf r)) := by
+    intro q hq h1 h2
+    rw [nk_map_nackOf j r hr, ← h1]
+    exact countP_sn_pos _ q (List.mem_filter.mpr ⟨hq, by simpa using h2⟩)
+  rw [discAll_eq r hr h.lg]
+  cases hi : c.s.inflight with
+  | nil =>
+    simp only [nk_append, nk_anon]
+    refine ⟨?_, ⟨fun h2 => by omega, fun ⟨q0, tl, h0, _⟩ => by cases h0⟩⟩
+    rintro ⟨q, hq, h1, h2⟩
+    rw [List.append_nil] at hq
+    have := hBpos q hq h1 h2
+    omega
+  | cons q0 tl =>
+    simp only
+    rw [hi] at hnd
+    have hC : nk j (((q0 :: tl).filter fun q : QMsg => q.con).map (nackOf r)) ≤ (sns (q0 :: tl)).count j := by
+      rw [nk_map_nackOf j r hr]; exact countP_filter_sn_le _ _ j
+    have hCpos : ∀ q ∈ q0 :: tl, q.sn = j → q.con = true → 1 ≤ nk j (((q0 :: tl).filter fun q : QMsg => q.con).map (nackOf r)) := by
+      intro q hq h1 h2
+      rw [nk_map_nackOf j r hr, ← h1]
+      exact countP_sn_pos _ q (List.mem_filter.mpr ⟨hq, by simpa using h2⟩)
+    have hA : nk j [nackOf r q0] = if q0.sn = j then 1 else 0 := by
+      simp only [nk, List.countP_cons, List.countP_nil, reports_nackOf]
+      by_cases hj : q0.sn = j <;> simp [hj, hr]
+    have hI : (sns (q0 :: tl)).count j = (if q0.sn = j then 1 else 0) + (sns tl).count j := by
+      simp only [sns, List.map_cons, List.count_cons]
+      by_cases hj : q0.sn = j <;> simp [hj]; omega
+    have hsplit : nk j (nackOf r q0 :: ((c.s.delayq.filter fun q : QMsg => q.con).map (nackOf r) ++
+        ((q0 :: tl).filter fun q : QMsg => q.con).map (nackOf r))) =
+        nk j [nackOf r q0] + nk j ((c.s.delayq.filter fun q : QMsg => q.con).map (nackOf r)) +
+        nk j (((q0 :: tl).filter fun q : QMsg => q.con).map (nackOf r)) := by
+      rw [← List.singleton_append, nk_append, nk_append]; omega
+    rw [hsplit, hA]
+    refine ⟨?_, ⟨fun h2 => ?_, ?_⟩⟩
+    · rintro ⟨q, hq, h1, h2⟩
+      rcases List.mem_append.mp hq with hq | hq
+      · have := hBpos q hq h1 h2; omega
+      · have := hCpos q hq h1 h2; omega
+    · by_cases hq0 : q0.sn = j
+      · rw [if_pos hq0] at h2 hI
+        refine ⟨q0, tl, rfl, hq0, ?_⟩
+        cases hcq : q0.con with
+        | true => rfl
+        | false =>
+          exfalso
+          have hC1 : nk j (((q0 :: tl).filter fun q : QMsg => q.con).map (nackOf r)) = 1 := by omega
+          rw [List.filter_cons, hcq] at hC1
+          simp only [Bool.false_eq_true, if_false] at hC1
+          rw [nk_map_nackOf j r hr] at hC1
+          have := countP_filter_sn_le tl (fun q : QMsg => q.con) j
+          omega
+      · rw [if_neg hq0] at h2 hI; omega
+    · rintro ⟨q0', tl', h0, h1, h2⟩
+      cases h0
+      have := hCpos q0 (List.mem_cons_self ..) h1 h2
+      rw [if_pos h1] at hI ⊢
+      omega
+
+/-- start of a history: nothing in flight, the delay queue in submission order with serials below `next`, no block mode -/
+theorem nak_start (s : Sess) (hinf : s.inflight = []) (hsrt : (s.delayq.map (·.sn)).Pairwise (· < ·))
+    (hlt : ∀ q ∈ s.delayq, q.sn < s.next) (hlg : s.lgCrcv = []) (hbm : s.blockMode = false) (hp : s.proto = .dtls) (k : Nat) :
+    Nak [] [] false k { s := s } := by
+  have hcq : ∀ j, hc j [] s = s.delayq.countP (fun q => q.sn == j) := fun j => by
+    simp [hc, hinf, sns, countP_sn_count]
+  refine ⟨?_, ?_, (fun _ _ => rfl), (fun _ _ => rfl), (fun _ => Nat.zero_le _), (fun j hj => absurd hj (by simp [nk])), hlg, hbm, hp,
+    (fun ht => Bool.noConfusion ht)⟩
+  · intro j; rw [hcq]; exact countP_sn_le_one _ hsrt j
+  · intro j hj; rw [hcq] at hj
+    obtain ⟨q, hq, rfl⟩ := countP_sn_mem _ _ hj
+    exact hlt q hq
+
+theorem nak_track {k' : Nat} (h : Nak T0 p false k c) (hw : Waiting k' c.s) : Nak T0 p true k' c :=
+  ⟨h.nd, h.lt, h.z, h.fut, h.le2, h.dbl, h.lg, h.bm, h.proto, fun _ => Or.inl hw⟩
+
+theorem hc_pos_of_mem (s : Sess) (q : QMsg) (hq : q ∈ s.delayq ++ s.inflight) : 0 < hc q.sn [] s := by
+  simp only [hc, List.count_nil, Nat.zero_add]
+  rcases List.mem_append.mp hq with hq | hq
+  · have := countP_sn_pos _ q hq; rw [countP_sn_count] at this; omega
+  · have := countP_sn_pos _ q hq; rw [countP_sn_count] at this; omega
+
 /-! ## from one event to the next, whole histories -/
 
 theorem nak_rebase (orc : List Orc) (h : Nak T0 p t k c) : Nak (T0 ++ c.out) p t k { s := c.s, orc := orc } := by
